@@ -129,6 +129,18 @@ func runDriver(driver string, lines []string, shards int) ([]string, []string, e
 }
 
 // leakCheck: does the error text of a failing op disclose the secret or an accepted code? (C13)
+// ownText: the text occurs in a string literal of the library itself (the generators draw candidate secrets from those
+// literals): an error message that contains it says nothing about the argument — "issuer is required" contains the
+// "secret" `issuer is required`
+func ownText(t string) bool {
+	for _, s := range dictStrs {
+		if len(s) >= len(t) && strings.Contains(s, t) {
+			return true
+		}
+	}
+	return false
+}
+
 func leakCheck(line, errText string) string {
 	if errText == "" {
 		return ""
@@ -148,7 +160,7 @@ func leakCheck(line, errText string) string {
 			if j := strings.IndexAny(v, "&#"); j >= 0 {
 				v = v[:j]
 			}
-			if len(v) >= 8 && strings.Contains(errText, v) {
+			if len(v) >= 8 && strings.Contains(errText, v) && !ownText(v) {
 				return "the secret parameter of the URL"
 			}
 		}
@@ -156,7 +168,7 @@ func leakCheck(line, errText string) string {
 	case "urlg":
 		if len(f) > 4 {
 			sec, _ := unhex(f[4])
-			if len(sec) >= 8 && strings.Contains(errText, string(sec)) {
+			if len(sec) >= 8 && strings.Contains(errText, string(sec)) && !ownText(string(sec)) {
 				return "the secret"
 			}
 		}
@@ -166,7 +178,7 @@ func leakCheck(line, errText string) string {
 	}
 	key, err := otp.DecodeSecret(string(secretText))
 	trimmed := strings.TrimSpace(string(secretText))
-	if len(trimmed) >= 8 && strings.Contains(errText, trimmed) {
+	if len(trimmed) >= 8 && strings.Contains(errText, trimmed) && !ownText(trimmed) {
 		return "secret text"
 	}
 	if err == nil && len(key) >= 5 {
